@@ -22,6 +22,7 @@ STUBS = [
     "clock: geneticengine.evaluation.tracker.monotonic_ns / recorder.monotonic_ns return 0 (time budgets outside the claim)",
     "isinstance(x, TreeNode) answered by the native isinstance under CrossHair (tool compatibility shim)",
     "typing alias __hash__ (Union/Annotated used as dict keys) evaluated outside the CrossHair tracer (tool compatibility shim)",
+    "lists of classes indexed by a symbolic integer fork per element (CrossHair's symbolic `type` values disabled; tool compatibility shim)",
     "grammar.utils.get_arguments runs outside the CrossHair tracer (same code, concrete class arguments only; performance)",
 ]
 
@@ -122,6 +123,15 @@ def install_crosshair_shims():
         c = getattr(typing, cname, None)
         if c is not None:
             _untraced_hash(c)
+
+    # (4) a list / tuple of CLASSES indexed by a symbolic integer (random.choice over productions or
+    # union members): CrossHair would build one symbolic `type` value; realising it later is
+    # unsupported for classes whose only common base is `object` (the path ends UNKNOWN and the
+    # whole obligation becomes inconclusive).  Classes are never promoted to symbolic types here, so
+    # such a subscript forks into one path per element instead.
+    from crosshair.libimpl.builtinslib import SymbolicType
+
+    SymbolicType._smt_promote_literal = classmethod(lambda cls, val: None)
 
     import geneticengine.grammar.utils as U
 
